@@ -1022,3 +1022,93 @@ impl Algebra for ProgAdd {
         Some(o.1 as usize)
     }
 }
+
+// ------------------------------------------------------------------------------------------------
+// FlipCount: counts of 0s and 1s under "flip the range"; the modifier is a zero-sized type, so nothing about a
+// pending modification is visible in the modifier value itself (only the item's own flag carries it)
+
+#[derive(Clone, Debug, Default, PartialEq)]
+pub struct Flip;
+
+#[derive(Clone, Debug, Default)]
+pub struct FcItem {
+    pub cnt: [u32; 2],
+    pub flip: bool,
+}
+
+impl SegtreeItem<Flip> for FcItem {
+    fn merge(l: &Self, r: &Self) -> Self {
+        FcItem { cnt: [l.cnt[0] + r.cnt[0], l.cnt[1] + r.cnt[1]], flip: false }
+    }
+    fn modify(&mut self, _m: &Flip) {
+        self.cnt.swap(0, 1);
+        self.flip = !self.flip;
+    }
+    fn push(&mut self, l: &mut Self, r: &mut Self) {
+        if self.flip {
+            self.flip = false;
+            l.modify(&Flip);
+            r.modify(&Flip);
+        }
+    }
+}
+
+#[derive(Debug, Clone)]
+pub struct FlipCount;
+
+impl Algebra for FlipCount {
+    type Item = FcItem;
+    type Mod = Flip;
+    type Elem = u8;
+    type Obs = [u32; 2];
+    type Pred = WordPred;
+    fn name() -> String {
+        "FlipCount".into()
+    }
+    fn gen_elem(rng: &mut Rng, _n: bool) -> u8 {
+        rng.below(2) as u8
+    }
+    fn gen_mod(_rng: &mut Rng, _n: bool) -> Flip {
+        Flip
+    }
+    fn leaf(e: &u8) -> FcItem {
+        let mut cnt = [0; 2];
+        cnt[*e as usize] = 1;
+        FcItem { cnt, flip: false }
+    }
+    fn apply(e: &mut u8, _m: &Flip) {
+        *e ^= 1;
+    }
+    fn empty() -> [u32; 2] {
+        [0; 2]
+    }
+    fn extend(o: &mut [u32; 2], e: &u8) {
+        o[*e as usize] += 1;
+    }
+    fn extend_left(o: &mut [u32; 2], e: &u8) {
+        o[*e as usize] += 1;
+    }
+    fn observe(item: &FcItem) -> [u32; 2] {
+        item.cnt
+    }
+    fn pending(item: &FcItem) -> bool {
+        item.flip
+    }
+    fn gen_pred(rng: &mut Rng, shadow: &[u8]) -> WordPred {
+        gen_word_pred(rng, shadow.len(), false)
+    }
+    fn eval(p: &WordPred, o: &[u32; 2]) -> bool {
+        // letter 2 does not occur in this alphabet: its count is 0
+        let c = |l: u8| if l < 2 { o[l as usize] } else { 0 };
+        match p {
+            WordPred::Always(b) => *b,
+            WordPred::Contains(l) => c(*l) > 0,
+            WordPred::LenGe(k) => (o[0] + o[1]) as usize >= *k,
+            WordPred::CountGe(l, k) => c(*l) as usize >= *k,
+            WordPred::Subseq(..) => unreachable!(),
+        }
+    }
+    fn obs_len(o: &[u32; 2]) -> Option<usize> {
+        Some((o[0] + o[1]) as usize)
+    }
+}
